@@ -216,12 +216,21 @@ class BoundaryGen:
             elif r < 0.55:
                 m = "lower"
             elif r < 0.85:
+                # injective on the class's fields (key collisions are C07's subject)
                 ren = []
-                pool = ["k1", "k2", "zz", "q_r"] + names
+                pool = ["k1", "k2", "zz", "q_r", "k3", "w_w"] + names
+                taken = set()
                 for nm in names:
-                    if rng.random() < 0.6:
-                        ren.append([nm, rng.choice(pool)])
-                m = {"rename": ren} if ren else "camel"
+                    key = rng.choice(pool) if rng.random() < 0.6 else nm
+                    if key in taken or (key != nm and key in names and key not in [r[0] for r in ren] and rng.random() < 0.7):
+                        key = nm
+                    if key in taken:
+                        key = "u_" + nm
+                    taken.add(key)
+                    if key != nm:
+                        ren.append([nm, key])
+                keys = [dict(ren).get(nm, nm) for nm in names]
+                m = {"rename": ren} if ren and len(set(keys)) == len(keys) else "camel"
             else:
                 m = {"complex": rng.choice(["list", "nested", "fn"])}
             self.mappers[d["name"]] = m
@@ -724,8 +733,21 @@ def same_inst(a, b):
     return dump.canon(a) == dump.canon(b)
 
 
-def same_doc(cls, a, b):
+def same_doc(cls, a, b, mapped=False):
+    """serialized documents: key order free, arrays that came from sets order free; with mappers the keys no
+    longer name the fields, so every array is compared order-free"""
+    if mapped:
+        return json.dumps(_sort_lists(_sort_doc(a)), sort_keys=True) == json.dumps(_sort_lists(_sort_doc(b)), sort_keys=True)
     return json.dumps(S.canon_doc(cls, _sort_doc(a)), sort_keys=True) == json.dumps(S.canon_doc(cls, _sort_doc(b)), sort_keys=True)
+
+
+def _sort_lists(j):
+    if isinstance(j, dict):
+        if "l" in j:
+            return {"l": sorted((_sort_lists(x) for x in j["l"]), key=lambda x: json.dumps(x, sort_keys=True))}
+        if "m" in j:
+            return {"m": [[_sort_lists(k), _sort_lists(v)] for k, v in j["m"]]}
+    return j
 
 
 def _sort_doc(j):
@@ -756,7 +778,7 @@ def loose_doc(j):
     return j
 
 
-def res_same(cls, m, i, doc=False):
+def res_same(cls, m, i, doc=False, mapped=False):
     """model result vs real result; None = agree, else message"""
     if m is None or i is None:
         return None
@@ -765,7 +787,7 @@ def res_same(cls, m, i, doc=False):
     if "ok" in m:
         if "ok" not in i:
             return f"model ok, real code raises {i.get('err')}: {i.get('msg')}"
-        same = same_doc(cls, m["ok"], i["ok"]) if doc else same_inst(m["ok"], i["ok"])
+        same = same_doc(cls, m["ok"], i["ok"], mapped=mapped) if doc else same_inst(m["ok"], i["ok"])
         if not same:
             return "results differ: model " + json.dumps(dump.canon(m["ok"]))[:300] + " impl " + json.dumps(dump.canon(i["ok"]))[:300]
         return None
